@@ -113,6 +113,58 @@ def run(F, rep):
     back_rules(F, rep)
     pred_rules(F, rep)
     empty_rules(F, rep)
+    roll_rules(F, rep)
+
+
+def roll_rules(F, rep, pid="C09"):
+    """C09-ROLL: the scanning loops keep a rolling hash-key code of the previous window and roll it forward by one symbol
+    (get_code_skip1) instead of recomputing it.  That is sound only if the stored code is refreshed in EVERY iteration with
+    the code (or the absence of a code) of the window just examined: if an iteration can reach the next one without
+    assigning it - e.g. the `no valid code here` branch - a stale code is rolled forward and a hash hit is taken for a
+    match over symbols that were never compared."""
+    R = pid + "-ROLL"
+    n = 0
+    for f in F.funcs.values():
+        if not f.key.startswith(LZ) or f.kind != "assocfn" or f.d.get("test"):
+            continue
+        rolls = [(bi, t) for bi, t in f.calls() if not t.get("indirect") and t["callee"].endswith("::get_code_skip1")]
+        if not rolls:
+            continue
+        g = cfg_of(f)
+        ex = Exprs(f)
+        from mirutil import local_updates
+        ups = local_updates(f, ex)
+        for bi, t in rolls:
+            # the rolled value: second argument, traced to the named local that carries it across iterations
+            prev = strip_tags(ex.operand(t["args"][1]))
+            names = [x[1] for x in walk(prev) if isinstance(x, tuple) and x[0] == "var"]
+            loops = [(h, body) for h, body in g.loops() if bi in body]
+            if not names or not loops:
+                continue
+            h, body = max(loops, key=lambda hb: len(hb[1]))
+            carried = [nm for nm in names if any(n2 == nm and b2 in body for n2, b2, _, _ in ups) and any(n2 == nm and b2 not in body for n2, b2, _, _ in ups)]
+            if not carried:
+                continue
+            nm = carried[0]
+            n += 1
+            assigns = {b2 for n2, b2, _, _ in ups if n2 == nm and b2 in body}
+            tails = [x for x in body if h in g.succ[x]]
+            # must-pass-through: from the loop head, can a back edge be reached without passing an assignment?
+            seen, st, bad = set(), [h], None
+            while st:
+                x = st.pop()
+                if x in seen or x in assigns or x not in body or f.blocks[x]["cleanup"]:
+                    continue
+                seen.add(x)
+                if x in tails and x != h:
+                    bad = x
+                    break
+                st.extend(s2 for s2 in g.succ[x] if s2 != h)
+            rep.ob(R, "%s: the rolling key code `%s` is refreshed on every path through an iteration" % (f.key.rsplit("::", 1)[-1], nm), bad is None,
+                   detail="%d assignment(s) in the loop" % len(assigns) if bad is None else
+                   "an iteration can reach the next one from %s without assigning `%s`: the previous window's code is rolled forward although that window was skipped" % (site_of(f, f.blocks[bad]["term"]), nm),
+                   site=site_of(f, t), key="%s | %s | rolling code refreshed" % (R, f.key))
+    rep.floor(R, n, 2, "scanning loops that roll the key code forward (encode, cost vector, estimate)")
 
 
 def back_rules(F, rep, pid="C09"):
